@@ -172,7 +172,7 @@ PFAST = ["number::Number::is_fast_path", "number::Number::try_fast_path", "num::
 for t, rng in (("f64", "m<=2^53, -22<=e<=37"), ("f32", "m<=2^24, -10<=e<=17")):
     K("pfast_try_fast_path_" + t, "number", ["C01" if t == "f64" else "C02", "C08", "C09", "C10", "C05", "C04"],
       "try_fast_path (generic code instantiated with an abstract Float that records operations; constants and power look-up are the real %s ones), ALL Numbers: Some iff (!many_digits, %s, and for e>emax m*10^(e-emax) <= 2^(ms+1)); the result is exactly one IEEE op: from_u64(m)/10^-e, from_u64(m)*10^e, or from_u64(m*10^(e-emax))*10^emax; table index <= emax" % (t, rng),
-      PFAST, features=ALL_CFG)
+      PFAST, features=["default", "alloc"])
     K("pfast_native_" + t, "number", ["C01" if t == "f64" else "C02", "C04", "C07", "C08"],
       "try_fast_path::<%s> ALL Numbers: no panic/OOB; Some(x) => x finite, non-negative, not NaN; zero significand => +0.0" % t,
       PFAST, features=["default", "alloc"], timeout=900)
@@ -228,7 +228,7 @@ K("c12_bigint_pow_dispatch", "bigint", C12P, "Bigint::pow(base,exp), base in {2,
 PN = ["parse::parse_number", "parse::parse_number_fast", "parse::into_i32"]
 PNP = ["C01", "C02", "C04", "C06", "C07", "C10", "C09"]
 PNUM_CASES = ['pnum_i0_f0', 'pnum_i1_f0', 'pnum_i18_f0', 'pnum_i19_f0', 'pnum_i20_f0', 'pnum_i21_f0', 'pnum_i23_f0', 'pnum_i0_f1_z0', 'pnum_i0_f1_z1', 'pnum_i0_f2_z1', 'pnum_i0_f19_z0', 'pnum_i0_f19_z5', 'pnum_i0_f19_z19', 'pnum_i0_f20_z0', 'pnum_i0_f20_z1', 'pnum_i0_f20_z20', 'pnum_i0_f21_z1', 'pnum_i0_f21_z2', 'pnum_i0_f23_z0', 'pnum_i0_f23_z3', 'pnum_i0_f23_z4', 'pnum_i0_f23_z5', 'pnum_i0_f23_z22', 'pnum_i1_f1', 'pnum_i1_f18', 'pnum_i1_f19', 'pnum_i1_f20', 'pnum_i10_f9', 'pnum_i10_f10', 'pnum_i10_f12', 'pnum_i18_f1', 'pnum_i18_f2', 'pnum_i18_f4', 'pnum_i19_f1', 'pnum_i19_f3', 'pnum_i20_f1', 'pnum_i21_f3', 'pnum_i5_f19']
-PNUM_QUICK = ['pnum_i0_f0', 'pnum_i0_f19_z5', 'pnum_i0_f1_z1', 'pnum_i0_f20_z1', 'pnum_i0_f20_z20', 'pnum_i0_f21_z2', 'pnum_i0_f23_z4', 'pnum_i10_f10', 'pnum_i18_f2', 'pnum_i19_f0', 'pnum_i19_f1', 'pnum_i1_f18', 'pnum_i1_f19', 'pnum_i20_f0', 'pnum_i20_f1', 'pnum_i23_f0']
+PNUM_QUICK = ['pnum_i0_f0', 'pnum_i0_f19_z5', 'pnum_i0_f20_z1', 'pnum_i0_f20_z20', 'pnum_i0_f23_z4', 'pnum_i10_f10', 'pnum_i18_f2', 'pnum_i19_f0', 'pnum_i19_f1', 'pnum_i1_f19', 'pnum_i20_f0', 'pnum_i20_f1']
 for nm in PNUM_CASES:
     K(nm, "parse", PNP, "parse_number(int, frac, e) == spec_parse_number: mantissa = first 19 significant digits, many_digits <=> 20th significant digit exists, exponent = sat(e + dropped integer digits - consumed fraction digits), for all digit values and ALL i32 exponents", PN,
       strength="bounded", bound="digit-count shape %s (i = integer digits, f = fraction digits, z = leading fraction zeros), all digit values symbolic" % nm[5:], features=["default", "compact"], timeout=900, tier="quick" if nm in PNUM_QUICK else "thorough")
@@ -236,7 +236,7 @@ K("pnum_into_i32_add_digit", "parse", PNP, "into_i32 clamps usize to i32::MAX; a
 for t in ("f64", "f32"):
     K("gdispatch_parse_float_" + t, "parse", ["C01" if t == "f64" else "C02", "C04", "C07", "C16", "C05", "C09", "C10"],
       "parse_float (generic code, abstract Float with the real %s constants; parse_number / moderate_path / slow replaced by ghost recorders returning contract-constrained symbolic results): fast-path value returned as is; else definite moderate result packed unchanged with no slow call; else exactly one slow call with (num, estimate un-biased by 32768, the original iterators) and its result packed unchanged" % t,
-      ["parse::parse_float", "parse::moderate_path", "extended_float::extended_to_float"], features=["default", "compact"], zflags=("stubbing",), timeout=600)
+      ["parse::parse_float", "parse::moderate_path", "extended_float::extended_to_float"], features=["default", "alloc"], zflags=("stubbing",), timeout=600)
 K("gdispatch_moderate_is_lemire", "parse", ["C01", "C02", "C05"], "moderate_path == lemire in non-compact builds (smoke-size domain: the wrapper has no logic)", ["parse::moderate_path"], strength="bounded", bound="mantissa < 1000, exponent 0..=5", features=["default", "alloc"], timeout=600)
 
 # --------------------------------------------------------------------------- P-SLOW (slow.rs)
@@ -391,8 +391,6 @@ PROPERTY_META["C19"] = dict(
     note="Bounded in length (8 bytes); tests/integration_tests.rs and etc/correctness copies are textual copies of the fuzz front-end and are not separately compiled. The library call is replaced by a ghost recorder (stub).",
     assumptions=[A_BOUND, "C01/C02 for the value returned by the library"])
 
-# exact ties at negative exponents (real multiplication, one exponent per obligation)
-for t, ks in (("f64", (1, 2, 3, 4)), ("f32", (1, 5, 9, 11, 13, 15, 16, 17))):
-    for k in ks:
-        K("c11_lemire_neg_tie_%s_k%d" % (t, k), "lemire", C11L, "compute_float::<%s>(-%d, (2m+1)*5^%d) for EVERY odd significand 2m+1 of ms+2 bits: decided (not declined) and rounded to the even neighbour of the exact tie (2m+1)*2^-%d" % (t, k, k, k), LEM, strength="proved", bound="one decimal exponent (q = -%d), all ties at that exponent with an (ms+2)-bit odd part" % k, features=LEM_CFG, timeout=900,
-          tier="quick" if (t, k) in (("f64", 4), ("f64", 1), ("f32", 17), ("f32", 11), ("f32", 1)) else "thorough")
+# tie window, both ends (product as ghost)
+for t, win in (("f64", "[-4, 23]"), ("f32", "[-17, 10]")):
+    K("c11_compute_float_tie_window_" + t, "lemire", C11L, "compute_float::<%s> with the product as ghost, all q in the table range: a tie-shaped product (lo <= 1, truncated bits exactly half, normal range) is rounded to EVEN iff q in %s and UP outside (window ends are literals of the contract, from Lemire's analysis; that real ties have this shape is part of A-LEMIRE)" % (t, win), LEM, features=LEM_CFG, zflags=("stubbing",), timeout=900)
